@@ -127,3 +127,18 @@ claim('C15', 'exploration',
       'DESIGN.md section 5, item 1; the text passed to the keyword callback is not judged.',
       'runtime monitoring: trace-specification checking of parse callbacks derived from the abstract document',
       'DESIGN.md section 4, C15')
+
+claim('C12', 'exploration',
+      'A fixed line-oriented host document (two blocks, scalars, loop, list, table, save frame with text field) x ~60 '
+      'defect plantings per position (missing value, duplicate names in every spelling and header position incl. within '
+      'one header, duplicate / invalid block and frame codes, data before the first block, partial packets, empty loop '
+      'header, loop without values, unterminated quotes / text / triple quotes, missing white space, stray and missing '
+      'delimiters, missing / null / unquoted / text-block keys, reserved words in mixed case, unterminated / unexpected / '
+      'disallowed / nested save frames, over-length lines in every context and at end of input, disallowed characters, '
+      'unexpected and invalid bare values) x 8 positions x LF / CR LF (/ CR), plus 2047/2048-character controls: first '
+      'reported code, its line interval, the return value after accepting every error, and the full recovered content '
+      'are judged against a table written from the error-recovery documentation.',
+      'One host shape; later (cascaded) errors are not judged; an accepted empty loop may be pruned or kept; a disallowed '
+      'character may be kept or replaced.',
+      'runtime monitoring: defect planting with a documentation-derived recovery oracle',
+      'DESIGN.md section 4, C12')
